@@ -783,9 +783,18 @@ def FilePreservationSyncUtil(file_from, file_to) -> None:
     print("*************************************")
 
     bg = CGenerator(os.path.dirname(file_from), os.path.dirname(file_to))
-    cm = bg.loadtemplates_firstfiltering_FILE(file_to, {}, {})
+    # 'file_to' is not a template : load it verbatim (no template filtering of blank lines, EXCLUDE/EXTENDS tags...)
+    name_to = os.path.basename(file_to)
+    cm = CCodeModel()
+    with open(file_to) as f:
+        cm.filenames_to_lines[name_to] = f.readlines()
     p  = Preservative(file_from)
     p.preserved_tags_per_file[file_to]          = p.preserved_tags_per_file.pop(file_from)
     p.preserved_tags_per_file_WAS_USED[file_to] = p.preserved_tags_per_file_WAS_USED.pop(file_from)
     p.Emplace(cm.filenames_to_lines, True)
+    # ... and write it back verbatim (createoutput would convert tabs in text that the sync must not touch).
+    lines_to = cm.filenames_to_lines.pop(name_to)
+    with open(file_to + __TMP_SUFFIX__, 'w') as writer:
+        writer.writelines(lines_to)
+    os.replace(file_to + __TMP_SUFFIX__, file_to)
     bg.createoutput(cm.filenames_to_lines)
